@@ -41,22 +41,27 @@ DEFSETS = [
     dict(e=[('s0', 'o0'), ('s1', None)], pe=[('p0', None)]),
     dict(e=[('s0', None), ('s0', 'o1')], pe=[('p1', 'o0'), ('p0', 'o0')]),
     dict(e=[('s1', 'o1'), ('s1', 'o1'), ('s0', 'o0')], pe=[]),
+    dict(e=[('s0', 'o0'), ('s1', None), ('s0', 'o1')], pe=[('p0', 'o0'), ('p1', None), ('p0', 'o1')]),
 ]
 
 
 def queries(tier, seed=0):
-    shapes = [Shape([2, 1], 2, 2, 2), Shape([1, 2, 1], 2, 2, 2), Shape([1, 2], 2, 2, 2, (6, 5))]
+    shapes = [Shape([2, 1], 2, 2, 2), Shape([1, 2, 1], 2, 2, 2), Shape([1, 2], 2, 2, 2, (6, 5)), Shape([3, 2], 2, 2, 2)]
     if tier != 'quick':
         shapes += [Shape([1, 1], 2, 2, 2), Shape([3, 1], 3, 2, 2)]
     qs = []
     for si, sh in enumerate(shapes):
         for di, ds in enumerate(DEFSETS):
-            if tier == 'quick' and di == 2 and si != 0:
+            if tier == 'quick' and di >= 2 and si != 0:
+                continue
+            if tier == 'quick' and si == 3 and di != 0:
                 continue
             for kind in ('flat', 'param', 'mask'):
                 if kind == 'mask' and di > 0:
                     continue
                 if kind == 'param' and di == 2 and tier == 'quick':
+                    continue
+                if kind == 'mask' and si == 3:
                     continue
                 qs.append(dict(kind=kind, shape=sh.to_json(), defs=di))
     return qs
